@@ -1266,6 +1266,14 @@ func c17Scenario(ctx *runCtx, cfg c17Cfg, items []c17Item, out string) (complete
 }
 
 func c17Child(ctx *runCtx, spec string) {
+	if strings.HasPrefix(spec, "conc ") {
+		c17ConcChild(ctx, spec)
+		return
+	}
+	if strings.HasPrefix(spec, "async ") {
+		c17AsyncChild(ctx, spec)
+		return
+	}
 	cfg := c17ParseSpec(spec)
 	tier := ctx.tier
 	if strings.Contains(spec, "race=1") {
@@ -1325,6 +1333,16 @@ func c17Run(ctx *runCtx) int {
 		batches = append(batches, batch{Spec: c17Cfg{TS: 4096, W: 1, Shard: 7}.spec() + ",race=1", Timeout: 25 * time.Minute, Race: true})
 		batches = append(batches, batch{Spec: c17Cfg{TS: 1 << 16, W: 2, Shard: 7}.spec() + ",race=1", Timeout: 25 * time.Minute, Race: true})
 	}
+	// concurrent writers sharing one client; asynchronous replication (c17_more.go)
+	cr, ak := 4, 1500
+	if ctx.tier == "thorough" {
+		cr, ak = 30, 8000
+	}
+	batches = append(batches,
+		batch{Spec: fmt.Sprintf("conc N=2 R=2 workers=16 rounds=%d seed=%d", cr, ctx.seed*100+1), Timeout: 10 * time.Minute},
+		batch{Spec: fmt.Sprintf("conc N=3 R=1 workers=32 rounds=%d seed=%d", cr, ctx.seed*100+2), Timeout: 10 * time.Minute},
+		batch{Spec: fmt.Sprintf("async N=2 keys=%d seed=%d", ak, ctx.seed*100+3), Timeout: 10 * time.Minute},
+		batch{Spec: fmt.Sprintf("async N=3 keys=%d seed=%d", ak, ctx.seed*100+4), Timeout: 10 * time.Minute})
 	parallel := 4
 	runBatches(ctx, batches, parallel, func(b batch, res batchResult, tail string) {
 		if res.Merged && res.ExitCode == 4 {
